@@ -11,7 +11,9 @@
 ./tools_mut.py C14 network/mixins.py 'result[count] = self.address_suffix[dec % 8]' 'result[count] = self.address_suffix[node_addr % 8]'
 ./tools_mut.py C14 network/mixins.py 'is_multicast, conv_to_pipe, conv_to_node = (True, 0, to_node)' 'is_multicast, conv_to_pipe, conv_to_node = (True, 1, to_node)'
 ./tools_mut.py C14 network/mixins.py '        self.frame_buf.header.from_node = self._addr
-        message_type = (' '        message_type = ('
+        self.frame_buf.message = message
+        return self._write(_lvl_2_addr(level), TX_MULTICAST)' '        self.frame_buf.message = message
+        return self._write(_lvl_2_addr(level), TX_MULTICAST)'
 ./tools_mut.py C14 network/mixins.py '                    if self._addr != NETWORK_DEFAULT_ADDR:
                         if self._parenthood:' '                    if True:
                         if self._parenthood:'
